@@ -36,6 +36,7 @@ func Spec() *run.Spec {
 			"non-trivial = input has non-identity indices or unreferenced vertices or ≥2 attribute arities AND ≥2 operations returned a mesh; " +
 			"distinct by input descriptor + operation names. edge-inputs: one case = (operation, topology, edge class of receiver) enumerated exhaustively over the table × 6 topologies × 8 classes " +
 			"(empty, vertices without indices, single primitive, no Position, uncovered material ranges, one arity only, zero-length attributes, ordinary), arguments drawn hostile (missing attribute names, bad pool sizes); non-trivial = the operation ran to a verdict (returned or reported failure). point-filters: one case = a point cloud of a given index pattern through 1–3 filter/crop operations. " +
+			"confusable: one case = a sequence of ≤ 9 calls of ONE generator family in one process whose parameter tuples a lossy memo key would confuse (decimal-concatenation collisions, swapped integers, equal sum / product / XOR, equal low 8 bits, equal integers with other floats, floats printing alike, -0/+0; larger tuple first in the first pair, smaller first in the second), full oracle on each result and all earlier results of the sequence re-checked (well-formed and unchanged); enumerated family × kind. " +
 			"large: one case = a point or triangle receiver with 32767 … 150000 vertices (block/batch sizes 4096·k, 16384, 32768, 65536 ± 1; the last vertices are referenced) or the result of a generator driven at such counts, " +
 			"through every deriving operation of the table once (not chained), WF + accessor sweep on every result.",
 		Assumptions: []string{
@@ -50,14 +51,25 @@ func Spec() *run.Spec {
 		},
 		MinNontrivial: map[string]int{"quick": 3000, "thorough": 30000},
 		MinObserved: map[string]int64{
-			"ops_returning_mesh":                   50,
-			"generator_families":                   20,
-			"chain_results_wf":                     10000,
-			"edge_combinations":                    6000,
-			"generator_results_wf":                 3000,
-			"large_cases":                          12,
-			"large_receivers_above_65535_vertices": 5,
-			"large_ops_returning_mesh":             40,
+			"ops_returning_mesh":                              50,
+			"generator_families":                              20,
+			"chain_results_wf":                                10000,
+			"edge_combinations":                               6000,
+			"generator_results_wf":                            3000,
+			"confusable_sequences":                            400,
+			"confusable_families":                             18,
+			"confusable_pairs/decimal-concatenation":          60,
+			"confusable_pairs/swapped":                        60,
+			"confusable_pairs/equal-sum":                      60,
+			"confusable_pairs/equal-product":                  60,
+			"confusable_pairs/equal-xor":                      60,
+			"confusable_pairs/equal-low-8-bits":               60,
+			"confusable_pairs/same-integers-different-floats": 60,
+			"confusable_pairs/floats-printing-alike":          60,
+			"confusable_pairs/negative-zero":                  60,
+			"large_cases":                                     12,
+			"large_receivers_above_65535_vertices":            5,
+			"large_ops_returning_mesh":                        40,
 		},
 		Phases: []run.Phase{
 			{Name: "generators", Cases: func(t string) int {
@@ -91,6 +103,13 @@ func Spec() *run.Spec {
 				}
 				return 1200
 			}, Run: pointFilters, Batch: 100, CPUBudgetS: 30},
+			{Name: "confusable", Cases: func(t string) int {
+				n := len(cfFamilies) * len(cfKinds)
+				if t == "thorough" {
+					return 60 * n
+				}
+				return 3 * n
+			}, Run: confusableCase, Batch: 60, CPUBudgetS: 60},
 			{Name: "large", Cases: func(t string) int {
 				if t == "thorough" {
 					return 152
